@@ -94,10 +94,46 @@ def _check(extra=None):
     return r
 
 
+def _cvc5(assertions, timeout_s=60):
+    """second back end for queries z3 leaves open: the query is exported as SMT-LIB and given to the cvc5 binary (strings-exp);
+    returns z3.sat / z3.unsat / z3.unknown.  Models are not imported: a cvc5 'sat' only decides feasibility."""
+    import os
+    import subprocess
+    import tempfile
+    exe = '/usr/bin/cvc5'
+    if not os.path.exists(exe):
+        return z3.unknown
+    s2 = z3.Solver()
+    s2.add(assertions)
+    text = '(set-logic ALL)\n' + s2.to_smt2()
+    fd, path = tempfile.mkstemp(suffix='.smt2')
+    try:
+        with os.fdopen(fd, 'w') as f:
+            f.write(text)
+        r = subprocess.run([exe, '--strings-exp', f'--tlimit={int(timeout_s * 1000)}', path], capture_output=True, text=True, timeout=timeout_s + 10)
+        out = r.stdout.strip().splitlines()
+        STATS['cvc5_calls'] = STATS.get('cvc5_calls', 0) + 1
+        if out and out[0] == 'unsat':
+            return z3.unsat
+        if out and out[0] == 'sat':
+            return z3.sat
+    except Exception:
+        pass
+    finally:
+        try:
+            os.remove(path)
+        except OSError:
+            pass
+    return z3.unknown
+
+
 def _sat(extra):
     r = _check(extra)
     if r == z3.unknown:
-        raise Unsupported('solver unknown on feasibility query')
+        r = _cvc5(list(ctx.solver.assertions()) + [extra])
+        if r == z3.unknown:
+            raise Unsupported('solver unknown on feasibility query (z3 with retry, then cvc5)')
+        STATS['cvc5_decided'] = STATS.get('cvc5_decided', 0) + 1
     return r == z3.sat
 
 
@@ -151,6 +187,11 @@ def valid(e):
     STATS['solver_calls'] += 1
     STATS['solver_s'] += time.time() - t0
     m = ctx.solver.model() if r == z3.sat else None
+    if r == z3.unknown:
+        # cvc5 may still prove the clause (unsat of the negation); a cvc5 'sat' carries no model here and stays 'unknown'
+        if _cvc5(list(ctx.solver.assertions())) == z3.unsat:
+            r = z3.unsat
+            STATS['cvc5_decided'] = STATS.get('cvc5_decided', 0) + 1
     ctx.solver.pop()
     if r == z3.unsat:
         return 'valid', None
